@@ -29,14 +29,14 @@ Theorem C15_multiset_split : forall sidx label k k', split_k1 sidx label k = inr
 Proof. exact split_k1_spec. Qed.
 Print Assumptions C15_multiset_split.
 
-(* remove_readout_os on positions: the window [start, start + recon) with start = (enc - recon) // 2 for data, every
+(* remove_readout_os on positions: the window [start, start + recon) with start = enc // 2 - recon // 2 for data, every
    trajectory component and center_sample.  _partial: that IFFT(result) equals the centre crop of IFFT(data), and that
    compress_coils is an orthogonal projection onto the dominant coil subspace, are checked on the implementation only
    (family numeric_claims); the model treats the coil axis and the values along k0 as opaque. *)
 Theorem C15_os_crop_window_partial : forall k k', reconx k < encx k -> remove_readout_os k = inr k' ->
-  forall o c a b j, fd k' o c a b j = fd k o c a b ((encx k - reconx k) / 2 + j) /\
-                    (forall m, ft k' m o a b j = ft k m o a b ((encx k - reconx k) / 2 + j)) /\
-                    fi k' 7 o a b = fi k 7 o a b - (encx k - reconx k) / 2.
+  forall o c a b j, fd k' o c a b j = fd k o c a b ((encx k / 2 - reconx k / 2) + j) /\
+                    (forall m, ft k' m o a b j = ft k m o a b ((encx k / 2 - reconx k / 2) + j)) /\
+                    fi k' 7 o a b = fi k 7 o a b - (encx k / 2 - reconx k / 2).
 Proof. exact remove_os_spec. Qed.
 Print Assumptions C15_os_crop_window_partial.
 
